@@ -417,6 +417,16 @@ def compare(case, out, model):
         if all(len(set(x)) == len(x) for x in rs):
             P("resample/without-replacement", f"none of the {nb} resamples of {n} rows repeats a row",
               "rows are drawn with replacement")
+    # every data row can be drawn: with B resamples of n rows a given row is missing from all of them with
+    # probability (1 - 1/n)^(n*B); demanded only when that is below 1e-12 (about n_boot >= 28), so that a
+    # false alarm is out of the question while a row that can never be drawn is reported
+    import math
+    if n >= 2 and n * nb * math.log(1 - 1.0 / n) < math.log(1e-12):
+        seen = set(i for x in rs for i in x)
+        missing = [i for i in range(n) if i not in seen]
+        if missing:
+            P("resample/row-never-drawn", f"data row(s) {missing} occur in none of the {nb} resamples of {n} rows",
+              "every resample draws from ALL n data rows")
     res = out["res"]
     # ---- shape: one entry per quantile, type / columns / index names of the point estimate -------
     for nm, pnm in zip(OUTS, POINTS):
